@@ -163,15 +163,25 @@ class Ctx:
         self._scratch = dst
         return dst
 
-    def inject(self, *rels):
+    def inject(self, *rels, also=()):
         """Copy harness/inject/<rel>/* into <scratch>/<rel>/ (files carry the
-        `verif` build tag)."""
+        `verif` build tag).  In-package harness files of OTHER properties
+        (named cNN_*_test.go) are left out unless listed in `also`, so that one
+        check's harness cannot break another's build."""
         dst = self.scratch_repo()
+        mine = self.prop.lower()
         for rel in rels:
             src = os.path.join(HARNESS, 'inject', rel)
             if not os.path.isdir(src):
                 raise Infra('no inject dir ' + src)
-            shutil.copytree(src, os.path.join(dst, rel), dirs_exist_ok=True)
+            for root, dirs, files in os.walk(src):
+                out = os.path.join(dst, rel, os.path.relpath(root, src))
+                os.makedirs(out, exist_ok=True)
+                for fn in files:
+                    m = re.match(r'^(c\d\d)_.*_test\.go$', fn)
+                    if m and m.group(1) != mine and fn not in also and root == src:
+                        continue
+                    shutil.copy(os.path.join(root, fn), os.path.join(out, fn))
 
     def instrument(self, *args):
         """Run the AST instrumenter on the scratch copy."""
